@@ -226,7 +226,9 @@ func mIntRulesFor(d string) []mRule {
 func VerifC04_NestedLists() {
 	zzverif.Expect("checked")
 	a := string([]byte{zzverif.OneOf("a", "01234")})
-	a9 := string([]byte{zzverif.Digit("a9")})
+	// concretised (forked), not symbolic: a symbolic digit inside a 19-20 digit
+	// value puts a chain of 64-bit multiplications (ParseUint) into every query
+	a9 := string([]byte{byte('0' + zzverif.IntRange("a9", 0, 9))})
 	var n mNode
 	switch zzverif.IntRange("family", 0, 3) {
 	case 0:
@@ -244,7 +246,7 @@ func VerifC04_NestedLists() {
 				Items: []schema.RuleASTNode{mNum(schema.TokenTypeNumber, a), mNum(schema.TokenTypeString, "x"),
 					mNum(schema.TokenTypeBoolean, "true"), mNum(schema.TokenTypeNull, "null"), mNum(schema.TokenTypeNumber, "7.5")}}}}
 	case 2:
-		big := []string{"18446744073709551615", "9999999999999999999", "1000000000000000000" + a, "12345678901234567" + a + "0", "1844674407370955161" + a9, "1844674407370955162" + a9}[zzverif.IntRange("big", 0, 5)]
+		big := []string{"18446744073709551615", "9999999999999999999", "1000000000000000000" + a9, "12345678901234567" + a9 + "0", "1844674407370955161" + a9, "1844674407370955162" + a9}[zzverif.IntRange("big", 0, 5)]
 		n = mNode{kind: schema.TokenTypeString, valText: `"abc"`, valWant: "abc"}
 		n.rules = []mRule{{"maxLength", big, mNum(schema.TokenTypeNumber, big)}}
 	default:
